@@ -17,7 +17,7 @@ special treatment.  Anything outside the fragment below is a *translation proble
   values   Bool, Int, a one-character string (Char), a string (List Char), a list of strings, a feature map (FMapG),
            a span (MSpan), a slice of the underlying SeqView (``self._seq[a:b]``, kept symbolic until it reaches the
            constructor);
-  exprs    names, int / bool / one-character constants, ``not``/``and``/``or``, comparisons of ints, conditional
+  exprs    names, int / bool / one-character constants, ``+``/``-`` of ints, ``not``/``and``/``or``, comparisons of ints, conditional
            expressions, ``char * int``, ``"".join(xs)``, ``str(self[a:b])``;
            feature map: ``m.complete``, ``m.start``, ``m.end``, ``m.num_spans``, ``m.spans``, ``m.without_gaps()``;
            span: ``s.lost``, ``s.start``, ``s.end``, ``s.length``, ``s.terminal``;
@@ -124,6 +124,17 @@ class Fn:
             if ta != tb or ta == PROP:
                 self.fail(node, f"branches of types {ta}/{tb}")
             return f"(if {c} then {a} else {b})", ta
+        if isinstance(node, ast.BinOp) and isinstance(node.op, (ast.Add, ast.Sub)):
+            a, ta = self.expr(node.left, env)
+            b, tb = self.expr(node.right, env)
+            if ta == INT and tb == INT:
+                return f"({a} {'+' if isinstance(node.op, ast.Add) else '-'} {b})", INT
+            self.fail(node, f"sum of {ta}/{tb}")
+        if isinstance(node, ast.UnaryOp) and isinstance(node.op, ast.USub):
+            a, ta = self.expr(node.operand, env)
+            if ta != INT:
+                self.fail(node, "negation of a non-int")
+            return f"(-{a})", INT
         if isinstance(node, ast.BinOp) and isinstance(node.op, ast.Mult):
             a, ta = self.expr(node.left, env)
             b, tb = self.expr(node.right, env)
@@ -151,7 +162,7 @@ class Fn:
             b, tb = self.expr(node.slice.upper, env)
             if ta != INT or tb != INT:
                 self.fail(node, "view slice bounds are not ints")
-            return f"{a} {b}", VSLICE
+            return f"({a}) ({b})", VSLICE
         if isinstance(node, ast.Call):
             return self.call(node, env)
         self.fail(node, "expression outside the fragment")
